@@ -3,6 +3,7 @@ package lib
 import (
 	"reflect"
 	"time"
+	"unicode/utf8"
 
 	"github.com/tormoder/fit"
 
@@ -31,6 +32,9 @@ type FileGenOpts struct {
 	PhasedMin, PhasedSpan int
 	// OutOfDomain: also produce strings longer than the field and arrays longer than the profile length.
 	OutOfDomain bool
+	// LongStrings: one string in six is longer than its field (field length .. 600 bytes) and one
+	// array in six longer than the profile length (.. 513 elements).
+	LongStrings bool
 	// MaxFieldsSet bounds the number of fields set per message (0: no bound). Messages whose
 	// encoded size would exceed what one record can hold are the encoder's documented FIXME.
 }
@@ -147,6 +151,23 @@ func SetField(rng *Rand, mv reflect.Value, pf *ref.PField, o *FileGenOpts) {
 		if o != nil && o.OutOfDomain && rng.Chance(1, 3) {
 			max = int(pf.Length) + 10
 		}
+		if o != nil && o.LongStrings && rng.Chance(1, 6) {
+			n := []int{max + 1, max + 2, max + 3, 255, 256, 257, 300, 511, 512, 513, 600}[rng.Intn(11)]
+			if n <= max {
+				n = max + 1
+			}
+			// multi-byte characters around the place where the field ends
+			b := make([]byte, 0, n+4)
+			for len(b) < n {
+				if len(b) >= max-3 && len(b) <= max+1 && rng.Chance(1, 2) {
+					b = append(b, []string{"é", "日", "😀"}[rng.Intn(3)]...)
+				} else {
+					b = append(b, 'a'+byte(rng.Intn(26)))
+				}
+			}
+			fv.SetString(string(b))
+			return
+		}
 		fv.SetString(genString(rng, max))
 		return
 	}
@@ -154,6 +175,10 @@ func SetField(rng *Rand, mv reflect.Value, pf *ref.PField, o *FileGenOpts) {
 		n := 1 + rng.Intn(int(pf.Length))
 		if o != nil && o.OutOfDomain && rng.Chance(1, 3) {
 			n = int(pf.Length) + 1 + rng.Intn(3)
+		}
+		if o != nil && o.LongStrings && rng.Chance(1, 6) {
+			// an array longer than the profile length: the first Length elements travel
+			n = []int{int(pf.Length) + 1, int(pf.Length) + 2, 255, 256, 257, 300, 512, 513}[rng.Intn(8)]
 		}
 		sl := reflect.MakeSlice(fv.Type(), n, n)
 		for i := 0; i < n; i++ {
@@ -344,6 +369,9 @@ func Relax(g uint16, vals []ref.Val) []ref.Val {
 		case 'a':
 			bt := ref.BaseTypes[pf.Base]
 			a := v.A
+			if pf.Array && len(a) > int(pf.Length) {
+				a = a[:pf.Length] // longer than the profile length: the first Length elements travel
+			}
 			for len(a) > 0 {
 				last := a[len(a)-1]
 				inv := false
@@ -361,6 +389,16 @@ func Relax(g uint16, vals []ref.Val) []ref.Val {
 				a = a[:len(a)-1]
 			}
 			out[pf.Sindex] = ref.Val{K: 'a', A: append([]ref.Val(nil), a...)}
+		case 's':
+			// a string longer than its field travels as the longest prefix that fits (length-1
+			// bytes) without splitting a character
+			if max := int(pf.Length) - 1; !pf.Array && max >= 0 && len(v.S) > max {
+				n := max
+				for n > 0 && !utf8.RuneStart(v.S[n]) {
+					n--
+				}
+				out[pf.Sindex] = ref.Val{K: 's', S: v.S[:n]}
+			}
 		case 't':
 			if pf.Kind == ref.KTimeLocal {
 				out[pf.Sindex] = ref.Val{K: 't', N: uint64(int64(v.N) + int64(v.Off)), Ns: v.Ns}
